@@ -275,3 +275,6 @@ M('C04', 'between-force-closed', C2F, "            if let Ok(c) = Curve2::from_p
 M('C04', 'control-swapped-call', C2F, "        if lower < control && control < upper {\n            self.between_lengths(lower, upper)", "        if lower < control && control < upper {\n            self.between_lengths(upper, lower)", 'between_lengths_by_control')
 M('C04', 'control-open-wraps', C2F, "        } else if control < lower || control > upper && self.is_closed {", "        } else if control < lower || control > upper {", 'between_lengths_by_control')
 M('C04', 'reversed-twice', C2F, "        let mut points = self.clone_points();\n        points.reverse();\n        Curve2::from_points(&points, self.tol, false).unwrap()", "        let mut points = self.clone_points();\n        points.reverse();\n        points.reverse();\n        Curve2::from_points(&points, self.tol, false).unwrap()", 'reversed')
+M('C05', 'rdp-degenerate-chord-unguarded', PTF, "        let sp = if chord.norm() > 0.0 {\n            Some(SurfacePoint::new_normalize(self.points[i0], chord))\n        } else {\n            None\n        };", "        let sp = if chord.norm() >= 0.0 {\n            Some(SurfacePoint::new_normalize(self.points[i0], chord))\n        } else {\n            None\n        };", 'degenerate-chord')
+M('C05', 'rdp-squared-deviation', PTF, "                Some(sp) => (sp.projection(&self.points[i]) - self.points[i]).norm(),", "                Some(sp) => (sp.projection(&self.points[i]) - self.points[i]).norm_squared(),", 'deviation-is-a-distance')
+M('C05', 'positions-skip-missing', C2F, "        points.push(curve.at_length(*p).unwrap().point);", "        if let Some(st) = curve.at_length(*p) {\n            points.push(st.point);\n        }", 'every-position')
